@@ -1043,6 +1043,32 @@ impl<'a> VisitMut for Rules<'a> {
                 }
             }
         }
+        if self.ctx.on("R54") {
+            // R54: indexing a Vec / slice listed in opts.checked_index: `A[i]` -> `*vx_index(&A, i)`, `A[i] = v` -> `vx_index_set(&mut A, i, v)`.
+            // The stubs return only when the index is in bounds (Rust's indexing panics otherwise): no in-bounds proof is asked, and
+            // nothing is claimed about a run that would panic.
+            let listed = |ex: &syn::Expr, ctx: &crate::Ctx| -> bool { let t = norm(&ex.to_token_stream().to_string()); ctx.opts["checked_index"].as_array().map(|a| a.iter().any(|v| v.as_str().map(norm).as_deref() == Some(&t))).unwrap_or(false) };
+            if let syn::Expr::Assign(asg) = e {
+                if let syn::Expr::Index(ix) = &*asg.left {
+                    if listed(&ix.expr, self.ctx) {
+                        let (a, i, v) = (&ix.expr, &ix.index, &asg.right);
+                        *e = syn::parse_quote!(vx_index_set(&mut #a, #i, #v));
+                        self.ctx.used("R54");
+                        syn::visit_mut::visit_expr_mut(self, e);
+                        return;
+                    }
+                }
+            }
+            if let syn::Expr::Index(ix) = e {
+                if listed(&ix.expr, self.ctx) {
+                    let (a, i) = (&ix.expr, &ix.index);
+                    *e = syn::parse_quote!((*vx_index(&#a, #i)));
+                    self.ctx.used("R54");
+                    syn::visit_mut::visit_expr_mut(self, e);
+                    return;
+                }
+            }
+        }
         if self.ctx.on("R52") {
             // R52: `A.iter().all(|p| B)` / `.any(|p| B)` -> while loop WITHOUT break: `while i < n && flag { if !(B) { flag = false; } i += 1; }`
             // (std definition: in order, stops after the first deciding element); the exit condition is then known to the verifier
@@ -1502,6 +1528,34 @@ impl<'a> VisitMut for Rules<'a> {
                             return;
                         }
                     }
+                }
+            }
+            if self.ctx.on("R55") {
+                // R55: `for x in S` consuming a set listed in opts.sset_loops: the set is first turned into a vector of its elements
+                // (trusted stub vx_into_vec: some order, every element once), then the vector loop rule applies
+                let rtxt = norm(&fl.expr.to_token_stream().to_string());
+                let listed = self.ctx.opts["sset_loops"].as_array().map(|a| a.iter().any(|v| v.as_str().map(norm).as_deref() == Some(&rtxt))).unwrap_or(false);
+                if listed {
+                    let k = self.ctx.fresh();
+                    let nn = syn::Ident::new(&format!("vx_n{}", k), proc_macro2::Span::call_site());
+                    let ii = syn::Ident::new(&format!("vx_i{}", k), proc_macro2::Span::call_site());
+                    let vv = syn::Ident::new(&format!("vx_v{}", k), proc_macro2::Span::call_site());
+                    let recv = (*fl.expr).clone();
+                    let pat = fl.pat.clone();
+                    let stmts = &fl.body.stmts;
+                    let label = fl.label.clone();
+                    let new: syn::Expr = syn::parse_quote!({
+                        let #vv = #recv.vx_into_vec();
+                        let #nn = #vv.len();
+                        #label for #ii in 0..#nn {
+                            let #pat = vx_vec_take(&#vv, #ii);
+                            #(#stmts)*
+                        }
+                    });
+                    *e = new;
+                    self.ctx.used("R55");
+                    syn::visit_mut::visit_expr_mut(self, e);
+                    return;
                 }
             }
             if self.ctx.on("R26") {
